@@ -256,6 +256,42 @@ void vf_case(vf::Ctx& c) {
             c.label("content_damage");
         }
     }
+    // the same damage must be reported when the damaged frame is not the first thing the decoder sees: after a frame WITHOUT
+    // checksum in the same input, and on a context that decoded such a frame before (session reset only / no reset)
+    if (fr.has_checksum && !ml) {
+        std::vector<uint8_t> plain(40), pre(ZSTD_compressBound(40));
+        for (size_t i = 0; i < plain.size(); i++) plain[i] = (uint8_t)('a' + i % 7);
+        size_t pn = ZSTD_compress(pre.data(), pre.size(), plain.data(), plain.size(), 1);   // default parameters: no checksum
+        VF_CHECK(c, !ZSTD_isError(pn), "setup");
+        pre.resize(pn);
+        for (unsigned v = 0; v < 3; v++) {
+            std::vector<uint8_t> g(f);
+            if (v == 0) g[g.size() - 1 - (size_t)t.range(0, 3)] ^= (uint8_t)(1u << t.range(0, 7));   // stored checksum
+            else { size_t at = (size_t)t.range(fr.header_size, f.size() - 5); g[at] ^= (uint8_t)(1u << t.range(0, 7)); }   // content
+            std::vector<uint8_t> both(pre); both.insert(both.end(), g.begin(), g.end());
+            vf::Buf out(plain.size() + x.size() + 16);
+            // one call over [frame without checksum][damaged checksummed frame]
+            size_t d = ZSTD_decompress(out.p, out.n, both.data(), both.size());
+            if (!ZSTD_isError(d)) VF_CHECK(c, v != 0 && d == plain.size() + x.size() && !memcmp(out.p + plain.size(), x.data(), x.size()), "a damaged checksummed frame that follows a frame without checksum in the same input was accepted by ZSTD_decompress (%s damaged)", v == 0 ? "stored checksum" : "content");
+            // a context that decoded a frame without checksum, then the damaged frame: no reset / session reset only
+            ZSTD_DCtx* ld = ZSTD_createDCtx();
+            size_t d0 = ZSTD_decompressDCtx(ld, out.p, out.n, pre.data(), pre.size());
+            VF_CHECK(c, !ZSTD_isError(d0), "setup decode");
+            if (t.flip()) ZSTD_DCtx_reset(ld, ZSTD_reset_session_only);
+            d = ZSTD_decompressDCtx(ld, out.p, out.n, g.data(), g.size());
+            if (!ZSTD_isError(d)) VF_CHECK(c, v != 0 && d == x.size() && (x.empty() || !memcmp(out.p, x.data(), x.size())), "a damaged checksummed frame was accepted by a context that had decoded a frame without checksum before (%s damaged)", v == 0 ? "stored checksum" : "content");
+            // streaming over the concatenation
+            ZSTD_DCtx_reset(ld, ZSTD_reset_session_only);
+            {
+                ZSTD_inBuffer in = {both.data(), both.size(), 0}; std::vector<uint8_t> acc; bool err = false; size_t r = 1;
+                vf::Buf ob(4096);
+                for (unsigned gd = 0; gd < 1000000 && in.pos < in.size; gd++) { ZSTD_outBuffer o = {ob.p, ob.n, 0}; size_t ip = in.pos; r = ZSTD_decompressStream(ld, &o, &in); if (ZSTD_isError(r)) { err = true; break; } acc.insert(acc.end(), ob.p, ob.p + o.pos); if (in.pos == ip && o.pos == 0) break; }
+                if (!err && r == 0) VF_CHECK(c, v != 0 && acc.size() == plain.size() + x.size() && !memcmp(acc.data() + plain.size(), x.data(), x.size()), "streaming over [frame without checksum][damaged checksummed frame] reported both frames complete (%s damaged)", v == 0 ? "stored checksum" : "content");
+            }
+            ZSTD_freeDCtx(ld);
+            c.label("checksum_damage_after_unchecked_frame");
+        }
+    }
     if (fr.has_checksum) c.label("frame_with_checksum");
     if (fr.has_fcs) c.label("frame_with_fcs");
     c.label("part:cuts");
